@@ -439,3 +439,75 @@ M("C09", "close-keeps-tunnel-host", "connection.py",
 M("C09", "proxy-headers-into-request-headers-in-manager", "poolmanager.py",
   "            headers = kw.get(\"headers\", self.headers)\n            kw[\"headers\"] = self._set_proxy_headers(url, headers)",
   "            headers = kw.get(\"headers\", self.headers)\n            kw[\"headers\"] = self._set_proxy_headers(url, {**headers, **self.proxy_headers})", rule="C09-R3")
+
+# --------------------------------------------------------------------------- C10
+M("C10", "method-check-removed", "connection.py",
+  "        match = _CONTAINS_CONTROL_CHAR_RE.search(method)\n        if match:\n            raise ValueError(\n                f\"Method cannot contain non-token characters {method!r} (found at least {match.group()!r})\"\n            )\n",
+  "", rule="C10-R1")
+M("C10", "method-pattern-allows-space", "connection.py",
+  "_CONTAINS_CONTROL_CHAR_RE = re.compile(r\"[^-!#$%&'*+.^_`|~0-9a-zA-Z]\")", "_CONTAINS_CONTROL_CHAR_RE = re.compile(r\"[^-!#$%&'*+.^_`|~0-9a-zA-Z ]\")", rule="C10-R1")
+M("C10", "method-checked-with-match-not-search", "connection.py",
+  "        match = _CONTAINS_CONTROL_CHAR_RE.search(method)", "        match = _CONTAINS_CONTROL_CHAR_RE.match(method)", rule="C10-R1")
+M("C10", "raw-url-to-make-request", "connectionpool.py",
+  "        if url.startswith(\"/\"):\n            url = to_str(_encode_target(url))\n        else:\n            url = to_str(parsed_url.url)",
+  "        if not url.startswith(\"/\"):\n            url = to_str(parsed_url.url)", rule="C10-R2")
+M("C10", "space-in-path-chars", "util/url.py",
+  "_PATH_CHARS = _USERINFO_CHARS | {\"@\", \"/\"}", "_PATH_CHARS = _USERINFO_CHARS | {\"@\", \"/\", \" \"}", rule="C10-R2")
+M("C10", "encoder-keeps-non-ascii", "util/url.py",
+  "            byte_ord < 128 and byte.decode() in allowed_chars", "            byte_ord >= 128 or byte.decode() in allowed_chars", rule="C10-R2")
+M("C10", "header-bypasses-putheader", "connection.py",
+  "        for header, value in headers.items():\n            self.putheader(header, value)\n        self.endheaders()",
+  "        for header, value in headers.items():\n            self._output(f\"{header}: {value}\".encode(\"latin-1\"))  # type: ignore[attr-defined]\n        self.endheaders()", rule="C10-R3")
+M("C10", "putheader-skips-validation-for-bytes", "connection.py",
+  "        if not any(isinstance(v, str) and v == SKIP_HEADER for v in values):\n            super().putheader(header, *values)",
+  "        if not any(isinstance(v, str) and v == SKIP_HEADER for v in values):\n            super().putheader(header, *[v for v in values if v])", rule="C10-R3")
+M("C10", "host-skipped-case-sensitively", "connection.py",
+  "        header_keys = frozenset(to_str(k.lower()) for k in headers)", "        header_keys = frozenset(to_str(k) for k in headers)", rule="C10-R5")
+M("C10", "h2-name-accepts-uppercase", "http2/connection.py",
+  "0-9a-z]+\\Z\")", "0-9a-zA-Z]+\\Z\")", rule="C10-R6")
+M("C10", "h2-name-dollar-anchor-again", "http2/connection.py",
+  "0-9a-z]+\\Z\")", "0-9a-z]+$\")", rule="C10-R6")
+M("C10", "h2-value-check-after-append", "http2/connection.py",
+  "            if _is_illegal_header_value(value):\n                raise ValueError(f\"Illegal header value {str(value)}\")\n            self._headers.append((header, value))",
+  "            self._headers.append((header, value))\n            if _is_illegal_header_value(value):\n                raise ValueError(f\"Illegal header value {str(value)}\")", rule="C10-R6")
+M("C10", "h2-value-allows-nul", "http2/connection.py",
+  "rb\"[\\0\\x00\\x0a\\x0d\\r\\n]|^[ \\r\\n\\t]|[ \\r\\n\\t]$\"", "rb\"[\\x0a\\x0d\\r\\n]|^[ \\r\\n\\t]|[ \\r\\n\\t]$\"", rule="C10-R6")
+M("C10", "raw-sendall-of-body", "connection.py",
+  "                if chunked:\n                    self.send(b\"%x\\r\\n%b\\r\\n\" % (len(chunk), chunk))\n                else:\n                    self.send(chunk)",
+  "                if chunked:\n                    self.send(b\"%x\\r\\n%b\\r\\n\" % (len(chunk), chunk))\n                else:\n                    self.sock.sendall(chunk)", rule="C10-R4")
+M("C10", "skip-header-accepted-for-any-header", "connection.py",
+  "        elif to_str(header.lower()) not in SKIPPABLE_HEADERS:", "        elif to_str(header.lower()) not in SKIPPABLE_HEADERS and header.lower().startswith(\"x-\"):", rule="C10-R5")
+
+# --------------------------------------------------------------------------- C11
+M("C11", "both-cl-and-te", "connection.py",
+  "                    if chunks is not None:\n                        chunked = True\n                        self.putheader(\"Transfer-Encoding\", \"chunked\")\n                else:\n                    self.putheader(\"Content-Length\", str(content_length))",
+  "                    if chunks is not None:\n                        chunked = True\n                        self.putheader(\"Transfer-Encoding\", \"chunked\")\n                else:\n                    self.putheader(\"Content-Length\", str(content_length))\n                    if chunks is not None and chunked:\n                        self.putheader(\"Transfer-Encoding\", \"chunked\")", rule=None, benign=True)
+M("C11", "te-emitted-but-not-chunk-framed", "connection.py",
+  "                    if chunks is not None:\n                        chunked = True\n                        self.putheader(\"Transfer-Encoding\", \"chunked\")",
+  "                    if chunks is not None:\n                        self.putheader(\"Transfer-Encoding\", \"chunked\")", rule="C11-R1")
+M("C11", "caller-content-length-ignored", "connection.py",
+  "            if \"content-length\" in header_keys:\n                chunked = False\n            elif \"transfer-encoding\" in header_keys:",
+  "            if \"transfer-encoding\" in header_keys:", rule="C11-R1")
+M("C11", "terminator-skipped-for-empty-iterable", "connection.py",
+  "        if chunked:\n            self.send(b\"0\\r\\n\\r\\n\")", "        if chunked and chunks is not None:\n            self.send(b\"0\\r\\n\\r\\n\")", rule="C11-R1")
+M("C11", "empty-chunks-not-skipped", "connection.py",
+  "                if not chunk:\n                    continue\n", "", rule="C11-R2")
+M("C11", "chunk-size-of-str-not-bytes", "connection.py",
+  "                if isinstance(chunk, str):\n                    chunk = chunk.encode(\"utf-8\")\n                if chunked:\n                    self.send(b\"%x\\r\\n%b\\r\\n\" % (len(chunk), chunk))",
+  "                if chunked:\n                    size = len(chunk)\n                    if isinstance(chunk, str):\n                        chunk = chunk.encode(\"utf-8\")\n                    self.send(b\"%x\\r\\n%b\\r\\n\" % (size, chunk))", rule="C11-R2")
+M("C11", "retry-resend-without-body-pos", "connectionpool.py",
+  "                release_conn=release_conn,\n                chunked=chunked,\n                body_pos=body_pos,\n                preload_content=preload_content,\n                decode_content=decode_content,\n                **response_kw,\n            )\n\n        # Handle redirect?",
+  "                release_conn=release_conn,\n                chunked=chunked,\n                preload_content=preload_content,\n                decode_content=decode_content,\n                **response_kw,\n            )\n\n        # Handle redirect?", rule="C11-R3")
+M("C11", "failedtell-treated-as-no-rewind", "util/request.py",
+  "    elif body_pos is _FAILEDTELL:\n        raise UnrewindableBodyError(", "    elif body_pos is _FAILEDTELL and body_seek is None:\n        raise UnrewindableBodyError(", rule="C11-R4")
+M("C11", "seek-error-swallowed", "util/request.py",
+  "        except OSError as e:\n            raise UnrewindableBodyError(\n                \"An error occurred when rewinding request body for redirect/retry.\"\n            ) from e",
+  "        except OSError:\n            pass", rule="C11-R4")
+M("C11", "303-keeps-body-pos", "connectionpool.py",
+  "                # The recorded position belonged to the body that was dropped.\n                body_pos = None\n", "", rule="C11-R7")
+M("C11", "str-length-before-encoding", "util/request.py",
+  "        chunks = (to_bytes(body),)\n        content_length = len(chunks[0])", "        chunks = (to_bytes(body),)\n        content_length = len(body)", rule="C11-R6")
+M("C11", "post-without-body-unframed", "util/request.py",
+  "_METHODS_NOT_EXPECTING_BODY = {\"GET\", \"HEAD\", \"DELETE\", \"TRACE\", \"OPTIONS\", \"CONNECT\"}", "_METHODS_NOT_EXPECTING_BODY = {\"GET\", \"HEAD\", \"DELETE\", \"TRACE\", \"OPTIONS\", \"CONNECT\", \"POST\"}", rule="C11-R1")
+M("C05", "303-keeps-body-pos", "connectionpool.py",
+  "                # The recorded position belonged to the body that was dropped.\n                body_pos = None\n", "", rule="C05-R4")
